@@ -39,6 +39,7 @@ M = [
  ("C15-cp-init-flags", "C15", "nucs/solvers/choice_points.py", "    not_entailed_propagators_stack[0] = True\n", ""),
  ("C18-qsize-gate", "C18", "nucs/solvers/multiprocessing_solver.py", "            if len(dead) > 0:\n                try:  # the last messages of a terminated process may have arrived since the timeout\n                    return solutions.get(timeout=POLL_TIMEOUT)\n                except Empty:\n                    raise RuntimeError", "            if len(dead) > 0 and solutions.qsize() == 0:\n                if True:\n                    raise RuntimeError"),
  ("C11-stats-inplace", "C11", "nucs/solvers/multiprocessing_solver.py", "def sum_stats(stats: List[Any], index: int) -> int:\n    return sum(int(s[index]) for s in stats)", "def sum_stats(stats: List[Any], index: int) -> int:\n    for s in stats[1:]:\n        stats[0][index] += s[index]\n    return int(stats[0][index])"),
+ ("C15-uint8-underflow", "C15", "nucs/solvers/choice_points.py", "    if stacks_top[0] == 0:\n        return False", "    if stacks_top[0] - 1 < 0:  # uint8: wraps as a numpy scalar, widens when compiled\n        return False"),
  ("C16-alldiff-bounds", "C16", "nucs/propagators/alldifferent_propagator.py", "bounds_nb = 2 * n + 2", "bounds_nb = 2 * n + 1"),
 ]
 
